@@ -2,10 +2,10 @@
 # usage: tools/try_seed.sh <patch.diff> <ID> [more IDs...]   -- applies the patch to /repo, runs the quick checks, reverts
 set -u
 patch=$1; shift
-cd /repo && git apply "$patch" || { echo "patch does not apply"; exit 3; }
+cd /repo && git apply -3 "$patch" && git reset -q || { echo "patch does not apply"; exit 3; }
 cd /verif
 for id in "$@"; do
   echo "=== $id with $(basename $(dirname $patch))"
   VERIF_SEED=${VERIF_SEED:-0} bin/check $id --tier ${TIER:-quick} 2>&1 | grep -E "VIOLATION|KNOWN|HARNESS|^\[C|oracle=" | cut -c1-400
 done
-cd /repo && git checkout -- . && git status --short | grep -v _build
+cd /repo && git reset -q --hard HEAD && git status --short | grep -v _build
